@@ -19,7 +19,7 @@ PID = "C07"
 REPR = {
     "letter": ["a", "Zq", "word"], "digit": ["7", "42"], "space": [" "], "comma": [","], "lpar": ["("], "rpar": [")"], "eq": ["="], "semi": [";"],
     "dash2": ["--"], "hash": ["#"], "copen": ["/*"], "cclose": ["*/"], "bslash": ["\\"], "nonascii": ["ü", "日", "Ж"], "tab": ["\t"], "nl": ["\n"],
-    "dquote": ['"'], "quote2": ["''"], "kw": ["select", "NULL", "Primary", "default"], "punct": [".", ":", "!", "%", "-", "+", "@", "_"], "colon_word": ["a:b"],
+    "dquote": ['"'], "quote2": ["''"], "kw": ["select", "NULL", "Primary", "default"], "punct": [".", ":", "!", "%", "-", "+", "@", "_"], "colon_word": ["a:b"], "stmtword": ["DROP TABLE y", "create table z", "Alter Table q", "GO"],
 }
 CLASSES = sorted(REPR)
 
@@ -31,6 +31,7 @@ POS = {
     "col_check": ("CREATE TABLE t1 (a int, b varchar(50) CHECK (b <> {L}), c int);", lambda r: r[0]["columns"][1]["check"]),
     "default_then_comment": ("CREATE TABLE t1 (a int, b varchar(50) DEFAULT {L} COMMENT 'plain note', c int DEFAULT 'z');", lambda r: r[0]["columns"][1]["default"]),
     "comment_after_default": ("CREATE TABLE t1 (a int DEFAULT 'q', b varchar(50) NOT NULL COMMENT {L}, c int);", lambda r: r[0]["columns"][1]["comment"]),
+    "alter_check": ("CREATE TABLE t1 (a int, b varchar(50));\nALTER TABLE t1 ADD CHECK (b <> {L});", lambda r: r[0]["alter"]["checks"][0]["statement"]),
     "enum": ("CREATE TYPE ty1 AS ENUM ('first', {L}, 'last');", lambda r: r[0]["properties"]["values"][1]),
     "option": ("CREATE TABLE t1 (a int, b varchar(50), c int) LOCATION {L};", lambda r: r[0]["table_properties"]["location"]),
 }
@@ -89,7 +90,7 @@ def run(tier, seed):
         except Exception as e:  # noqa
             V.mismatch(dict(case, problem="literal not reported at its position (" + type(e).__name__ + ")"), tags=tags, paths=["missing"])
             continue
-        ok = (got == lit) if pid not in ("check", "col_check") else (isinstance(got, str) and lit in got)
+        ok = (got == lit) if pid not in ("check", "col_check", "alter_check") else (isinstance(got, str) and lit in got)
         if not ok:
             V.mismatch(dict(case, problem="literal not verbatim", reported=got), tags=tags, paths=["literal"])
     # numeric defaults come back as integers of the same value
